@@ -201,7 +201,13 @@ func visitInstr(fr *frame, instr ssa.Instruction) continuation {
 		x := fr.get(instr.X)
 		switch {
 		case instr.Op == token.MUL:
-			fr.env[instr] = load(mustDeref(instr.X.Type()), deref(fr, x, "load"))
+			a := deref(fr, x, "load")
+			if RD.on {
+				if al, ok := instr.X.(*ssa.Alloc); !ok || al.Heap {
+					RD.raceMem(fr, mustDeref(instr.X.Type()), a, false, instr.X)
+				}
+			}
+			fr.env[instr] = load(mustDeref(instr.X.Type()), a)
 		case isSymScalar(x):
 			fr.env[instr] = symUnop(instr.Op, x)
 		default:
@@ -261,7 +267,13 @@ func visitInstr(fr *frame, instr ssa.Instruction) continuation {
 		chanSend(fr.get(instr.Chan), fr.get(instr.X))
 
 	case *ssa.Store:
-		store(mustDeref(instr.Addr.Type()), deref(fr, fr.get(instr.Addr), "store"), fr.get(instr.Val))
+		a := deref(fr, fr.get(instr.Addr), "store")
+		if RD.on {
+			if al, ok := instr.Addr.(*ssa.Alloc); !ok || al.Heap {
+				RD.raceMem(fr, mustDeref(instr.Addr.Type()), a, true, instr.Addr)
+			}
+		}
+		store(mustDeref(instr.Addr.Type()), a, fr.get(instr.Val))
 
 	case *ssa.If:
 		succ := 1
@@ -336,6 +348,11 @@ func visitInstr(fr *frame, instr ssa.Instruction) continuation {
 		fr.env[instr] = makeMap(instr.Type().Underlying().(*types.Map).Key(), reserve)
 
 	case *ssa.Range:
+		if RD.on {
+			if m, ok := fr.get(instr.X).(*omap); ok {
+				RD.raceObj(fr, m, false, instr.X)
+			}
+		}
 		fr.env[instr] = rangeIter(fr.get(instr.X), instr.X.Type())
 
 	case *ssa.Next:
@@ -374,6 +391,11 @@ func visitInstr(fr *frame, instr ssa.Instruction) continuation {
 		}
 
 	case *ssa.Lookup:
+		if RD.on {
+			if m, ok := fr.get(instr.X).(*omap); ok {
+				RD.raceObj(fr, m, false, instr.X)
+			}
+		}
 		fr.env[instr] = lookup(instr, fr.get(instr.X), fr.get(instr.Index))
 
 	case *ssa.MapUpdate:
@@ -382,6 +404,9 @@ func visitInstr(fr *frame, instr ssa.Instruction) continuation {
 		v := fr.get(instr.Value)
 		switch m := m.(type) {
 		case *omap:
+			if RD.on {
+				RD.raceObj(fr, m, true, instr.Map)
+			}
 			m.insert(key, v)
 		default:
 			panic(fmt.Sprintf("illegal map type: %T", m))
